@@ -443,3 +443,52 @@ func Resolve(v ssa.Value) ssa.Value {
 	}
 	return v
 }
+
+// ReachingStore resolves a load of a local cell (a variable captured by a
+// closure, hence not lifted to SSA registers) to the value stored by the
+// nearest preceding store in the same block, scanning back through unique
+// predecessors.  It returns nil when no such store is found.
+func ReachingStore(v ssa.Value) ssa.Value {
+	ld, ok := Unconv(v).(*ssa.UnOp)
+	if !ok || ld.Op != token.MUL {
+		return nil
+	}
+	cell := ld.X
+	if _, isAlloc := cell.(*ssa.Alloc); !isAlloc {
+		if _, isFV := cell.(*ssa.FreeVar); !isFV {
+			return nil
+		}
+	}
+	b := ld.Block()
+	start := -1
+	for i, in := range b.Instrs {
+		if in == ssa.Instruction(ld) {
+			start = i
+		}
+	}
+	for hops := 0; hops < 6; hops++ {
+		for k := start - 1; k >= 0; k-- {
+			if st, ok := b.Instrs[k].(*ssa.Store); ok && st.Addr == cell {
+				return st.Val
+			}
+		}
+		if len(b.Preds) != 1 {
+			return nil
+		}
+		b = b.Preds[0]
+		start = len(b.Instrs)
+	}
+	return nil
+}
+
+// SameValue reports that x denotes value v: directly, after resolving
+// conversions / single-store cells, or through the reaching store of a cell.
+func SameValue(x, v ssa.Value) bool {
+	if x == v || Resolve(x) == v || Resolve(x) == Resolve(v) {
+		return true
+	}
+	if r := ReachingStore(x); r != nil && (r == v || Resolve(r) == Resolve(v)) {
+		return true
+	}
+	return false
+}
